@@ -52,12 +52,13 @@ type Case struct {
 	Goroutines int    `json:"goroutines"`
 	Procs      int    `json:"gomaxprocs"`
 	Repeat     int    `json:"repeat"` // every item is executed by this many goroutines
+	Hotspot    bool   `json:"hotspot,omitempty"` // all items are documents that consist of one large data URI
 	Yield      bool   `json:"yield"`
 	Order      []int  `json:"order"` // permutation seed per goroutine
 	Cold       bool   `json:"cold,omitempty"` // the concurrent calls are the first ones a freshly registered registry sees
 }
 
-const rule = "cases = work lists of (entry point, media type, input) executed by G goroutines (2..48) at GOMAXPROCS 1/2/4/16 on ONE registry with SHARED option structs (all six minifiers + a command minifier), every item by 1..3 goroutines in different orders, with Gosched pacing; inputs from the repository snippets of all media types plus re-entrant HTML/SVG/CSS documents (script, style, inline svg, style/on* attributes, data URIs); oracle = (1) every concurrent result (bytes and error text) equals the sequential result computed before, (2) the race detector is silent (build with -race, halt on first report), (3) deep snapshots of all option structs and of the exec.Cmd are unchanged, (4) while one call is parked in a reader the harness controls, all other calls complete (non-blocking), (5) the digest of all outputs of a fixed work list is identical in this process, in a repeated run and in two fresh child processes; distinct by hash of the work list; non-trivial = >= 4 goroutines, >= 2 media types and >= 1 re-entrant document"
+const rule = "cases = work lists of (entry point, media type, input) executed by G goroutines (2..48) at GOMAXPROCS 1/2/4/16 on ONE registry with SHARED option structs (all six minifiers + a command minifier), every item by 1..3 goroutines in different orders, with Gosched pacing; inputs from the repository snippets of all media types plus re-entrant HTML/SVG/CSS documents (script, style, inline svg, style/on* attributes, data URIs); one work list in eight is a hot spot: 12..48 goroutines on documents that consist of one large data URI with an SVG image, so that many calls are inside the same helper at the same moment; oracle = (1) every concurrent result (bytes and error text) equals the sequential result computed before, (2) the race detector is silent (build with -race, halt on first report), (3) deep snapshots of all option structs and of the exec.Cmd are unchanged, (4) while one call is parked in a reader the harness controls, all other calls complete (non-blocking), (5) the digest of all outputs of a fixed work list is identical in this process, in a repeated run and in two fresh child processes; distinct by hash of the work list; non-trivial = >= 4 goroutines, >= 2 media types and >= 1 re-entrant document"
 
 // the shared registry and its shared option structs
 type world struct {
@@ -315,7 +316,46 @@ var reentrant = []Item{
 	{Kind: "js", Src: "var a = 1, b = 2; function f(longname, other){ var inner = longname + other; return inner * a }"},
 }
 
+// dataURIDoc: a stylesheet or an HTML document that is almost nothing but one large data URI holding an SVG image, so
+// that a call spends its time inside the data URI helper and the minifier it calls
+func dataURIDoc(html bool, paths int, quoted bool) Item {
+	var sb strings.Builder
+	sb.WriteString("<svg xmlns='http://www.w3.org/2000/svg' viewBox='0 0 100 100'>")
+	for i := 0; i < paths; i++ {
+		fmt.Fprintf(&sb, "<path d='M %d 10 L 20.00 %d L 30 30 Z' fill='#ff0000' />", i, i+1)
+	}
+	sb.WriteString("</svg>")
+	enc := strings.NewReplacer("<", "%3C", ">", "%3E", "#", "%23", " ", "%20").Replace(sb.String())
+	if html {
+		return Item{Kind: "html", Src: "<p> a  b </p><img alt=x src=\"data:image/svg+xml," + enc + "\">"}
+	}
+	q := ""
+	if quoted {
+		q = "\""
+	}
+	return Item{Kind: "css", Src: ".logo { background-image : url(" + q + "data:image/svg+xml," + enc + q + ") ; color : #ff0000 }"}
+}
+
+func genHotspot(t *rapid.T) Case {
+	c := Case{Goroutines: rapid.SampledFrom([]int{12, 16, 32, 48}).Draw(t, "goroutines"), Procs: rapid.SampledFrom([]int{2, 4, 16, 16}).Draw(t, "procs"), Repeat: rapid.IntRange(1, 3).Draw(t, "repeat"), Yield: rapid.IntRange(0, 3).Draw(t, "yield") == 0, Hotspot: true}
+	n := rapid.IntRange(c.Goroutines, 3*c.Goroutines).Draw(t, "items")
+	for i := 0; i < n; i++ {
+		it := dataURIDoc(rapid.IntRange(0, 3).Draw(t, "html") == 0, rapid.SampledFrom([]int{40, 150, 300}).Draw(t, "paths")+i%7, rapid.Bool().Draw(t, "quoted"))
+		it.Entry = rapid.SampledFrom([]string{"String", "Bytes", "Minify"}).Draw(t, "entry")
+		c.Items = append(c.Items, it)
+	}
+	for g := 0; g < 8; g++ {
+		c.Order = append(c.Order, rapid.IntRange(0, 100).Draw(t, "order"))
+	}
+	c.Cold = rapid.IntRange(0, 2).Draw(t, "cold") == 0
+	return c
+}
+
 func genCase(t *rapid.T) Case {
+	if rapid.IntRange(0, 7).Draw(t, "hotspot") == 0 {
+		// many goroutines inside the same helper at the same moment
+		return genHotspot(t)
+	}
 	n := rapid.IntRange(4, 40).Draw(t, "items")
 	c := Case{Goroutines: rapid.SampledFrom([]int{2, 3, 4, 8, 16, 32, 48}).Draw(t, "goroutines"), Procs: rapid.SampledFrom([]int{1, 2, 4, 16}).Draw(t, "procs"), Repeat: rapid.IntRange(1, 3).Draw(t, "repeat"), Yield: rapid.Bool().Draw(t, "yield")}
 	entries := []string{"Minify", "Bytes", "String", "Reader", "Writer", "Match", "MinifyMimetype", "String", "Bytes"}
@@ -363,7 +403,7 @@ func TestCampaignConcurrent(t *testing.T) {
 		for _, it := range c.Items {
 			kinds[it.Kind] = true
 		}
-		hx.C.Case(hx.Hash(string(b)), err == nil && nontrivial(c), fmt.Sprintf("goroutines:%d", c.Goroutines), fmt.Sprintf("gomaxprocs:%d", c.Procs), fmt.Sprintf("kinds:%d", len(kinds)), fmt.Sprintf("yield:%v", c.Yield))
+		hx.C.Case(hx.Hash(string(b)), err == nil && nontrivial(c), fmt.Sprintf("goroutines:%d", c.Goroutines), fmt.Sprintf("gomaxprocs:%d", c.Procs), fmt.Sprintf("kinds:%d", len(kinds)), fmt.Sprintf("yield:%v", c.Yield), fmt.Sprintf("hotspot:%v", c.Hotspot))
 		hx.C.AddExtra("concurrent_calls", int64(len(c.Items)*c.Repeat))
 		if err == nil && nontrivial(c) && len(c.Items) <= 8 {
 			var desc []string
